@@ -115,6 +115,21 @@ class Session(object):
         self.c.inc("server_connect_events")
         self.check_promotion(client, "handler.connect")
 
+    def has_proof(self, client):
+        """was the server offered a datagram from the connection's address that opens under the connection's key to a
+        CHALLENGE_RESP carrying the token it issued?"""
+        key, token = client.session_key_bytes, client.token
+        for d in self.offered.get(client.addr, []):
+            dec = L.decode_datagram(d, key)
+            if dec.ok and dec.form == "gcm" and dec.ptype == 3 and dec.count == 1:
+                try:
+                    msg = self.C.Serializable.loadb(dec.msgs[0][2])
+                    if type(msg).__name__ == "HandshakeClientChallengeResponseMessage" and msg.token == token:
+                        return True
+                except Exception:
+                    pass
+        return False
+
     def check_promotion(self, client, where):
         key, token = client.session_key_bytes, client.token
         ok = False
@@ -769,6 +784,121 @@ def run_shard(cfg):
             out["distinct"].add(h64("concurrent", variant, S.n))
         for v in (0, 1, 0, 1):
             concurrent(v)
+        # --- a new handshake from the address of an ESTABLISHED connection, around the end of that connection: the client hello of
+        #     the newcomer (an attacker that took over the port, or a peer that reconnects from the same port) is offered before /
+        #     right after the DISCONNECT of the old session in the same batch of datagrams, or a tick / a few ticks later.  Whenever
+        #     the server answers with a hello, the newcomer keys itself from it and sends sealed APPLICATION data under that key
+        #     instead of the challenge response (or only after it).  Whatever object the server holds for the address in
+        #     `connections` - at any status - must have been proven by a CHALLENGE_RESP under ITS key with ITS token, and every
+        #     message handed to the handler must come from such an object
+        from mpgameserver.crypto import EllipticCurvePublicKey as _Pub
+
+        def takeover(order, answer, variant):
+            w = S.w
+            S.n += 1
+            S.case = "same-address-hello-around-disconnect:%s:%s" % (order, answer)
+            addr = ("10.6.%d.%d" % ((S.n >> 8) & 255, S.n & 255), 23000 + (S.n % 30000))
+            cl = L.ClientEnd(w, addr, 1, pinned=True)
+            w.clients.append(cl)
+            w.clients_by_addr[addr] = cl
+            cl.connect()
+            w.run_until(lambda _w: getattr(cl.udp.conn.status, "value", 0) == 2 and addr in w.ctxt.connections, 60)
+            old_conn = w.ctxt.connections.get(addr)
+            if old_conn is None:
+                w.remove_client(cl)
+                return
+            priv = EllipticCurvePrivateKey.new()
+            m = C.HandshakeClientHelloMessage()
+            m.client_pubkey = priv.getPublicKey()
+            m.client_version = 1
+            hello = A.forge_crc("c2s", 1, 1, 0, 0, [(1, 1, m.dumpb())], now())
+            st = {"hellos": []}
+            judged = set()
+            unproven_msgs = []
+
+            def on_message(client, seqnum, msg):
+                if getattr(client, "addr", None) == addr and client is not old_conn:
+                    out["counters"].inc("handler_messages_from_the_newcomer")
+                    if not S.has_proof(client):
+                        unproven_msgs.append((str(client.status), bytes(msg)[:24]))
+            w.handler.on.setdefault("message", []).append(on_message)
+
+            def flt(direction, a, d, info):
+                if a != addr or len(d) < 20:
+                    return None
+                if direction == "c2s" and d[12] == 5 and "sent" not in st:
+                    st["sent"] = True
+                    seq = {"hello-after-disconnect": ((d, "honest", 0.004), (hello, "forged:same-address-hello", 0.004)),
+                           "hello-before-disconnect": ((hello, "forged:same-address-hello", 0.004), (d, "honest", 0.004)),
+                           "hello-one-tick-later": ((d, "honest", 0.004), (hello, "forged:same-address-hello", 0.004 + w.dt)),
+                           "hello-after-the-sweep": ((d, "honest", 0.004), (hello, "forged:same-address-hello", 0.004 + 4 * w.dt))}[order]
+                    for dd, origin, delay in seq:
+                        w.net.inject("c2s", addr, dd, origin, delay)
+                    return "drop"
+                if direction == "s2c" and d[12] == 2 and "sent" in st:
+                    st["hellos"].append(d)
+                    return "drop"
+                return None
+            w.net.filters.append(flt)
+
+            def on_offer(a, d, origin):
+                if a == addr and d == hello:
+                    st["offered_tick"] = w.ticks
+                    st["old_in_table_at_offer"] = w.ctxt.connections.get(addr) is old_conn
+                if a == addr and len(d) >= 20 and d[12] == 5 and origin == "honest":
+                    st["disconnect_tick"] = w.ticks
+            w.offer_hooks.append(on_offer)
+
+            def judge():
+                sconn = w.ctxt.connections.get(addr)
+                if sconn is not None and sconn is not old_conn and id(sconn) not in judged:
+                    judged.add(id(sconn))
+                    out["counters"].inc("newcomers_found_in_connections")
+                    S.check_promotion(sconn, "membership in connections (status %s) of a peer that sent its hello from the address of a connection that was %s" % (
+                        str(sconn.status), "ending in the same batch of datagrams" if st.get("offered_tick") == st.get("disconnect_tick") else "ending"))
+            try:
+                cl.udp.disconnect()
+                w.step(1)
+                w.remove_client(cl)
+                sent_app = False
+                for t in range(14):
+                    w.step(1)
+                    judge()
+                    if st["hellos"] and not sent_app:
+                        sent_app = True
+                        try:
+                            sh = parse_server_hello(C, st["hellos"][0])
+                            key = S._orig_ecdh(priv, _Pub.fromBytes(sh["eph"]), sh["salt"])
+                        except Exception:
+                            continue
+                        seq_ = 2
+                        if answer == "challenge-then-app-data":
+                            w.net.inject("c2s", addr, A.seal(key, "c2s", 3, seq_, 1, 0, [(2, 3, with_token(None, sh["token"]))], now()), "honest")
+                            seq_ += 1
+                        for k in range(3):
+                            w.net.inject("c2s", addr, A.seal(key, "c2s", 6, seq_ + k, 1, 0, [(seq_ + k, 6, b"app data from a newcomer %d" % k)], now()),
+                                         "forged:app-data-instead-of-challenge" if answer == "app-data" else "honest", delay=k * w.dt)
+                        out["counters"].inc("newcomers_keyed_from_the_server_hello:" + answer)
+                if "offered_tick" in st:
+                    out["counters"].inc("same_address_hellos_around_a_disconnect")
+                    if order in ("hello-after-disconnect", "hello-before-disconnect") and st.get("offered_tick") == st.get("disconnect_tick") and st.get("old_in_table_at_offer"):
+                        out["counters"].inc("same_address_hellos_in_the_batch_of_the_disconnect:" + order)
+                if unproven_msgs:
+                    S.viol("handler-message-from-unproven-peer",
+                           "handler.handle_message was called %d times for the peer at %s (first: status %s, %r) although no datagram from that address opens under "
+                           "that connection's key to a CHALLENGE_RESP with its token: it sent its hello %s and answered the server hello with application data" % (
+                               len(unproven_msgs), addr, unproven_msgs[0][0], unproven_msgs[0][1],
+                               "in the batch of the old session's DISCONNECT" if st.get("offered_tick") == st.get("disconnect_tick") else "after the old session's DISCONNECT"))
+            finally:
+                w.net.filters.remove(flt)
+                w.offer_hooks.remove(on_offer)
+                w.handler.on["message"].remove(on_message)
+            # tidy up: whatever is left for the address goes away by timeout / the newcomer's disconnect is not needed (temp entries expire in 1 s)
+            w.step(2)
+            out["distinct"].add(h64("takeover", order, answer, variant))
+        for i, order in enumerate(("hello-after-disconnect", "hello-before-disconnect", "hello-one-tick-later", "hello-after-the-sweep")):
+            for answer in ("app-data", "challenge-then-app-data"):
+                takeover(order, answer, i)
         # --- (b) for every ephemeral key pair: the two derivation functions of the handshake (the real crypto.ecdh_server /
         #     crypto.ecdh_client, as _recvClientHello and _recvServerHello call them) agree on a 16-byte key.  Hundreds of fresh
         #     pairs per shard: properties of the shared secret that occur once in a few hundred pairs (a leading zero byte ...)
@@ -831,6 +961,8 @@ def finish(tier, seed, results):
     need(m["counters"], ["honest_handshakes", "root_key_signatures", "client_key_derivations", "client_params_in_signed_set",
                          "signature_verified_independently", "promotions_with_proof", "post_handshake_rewrapped_hellos", "retries_on_same_client_object", "second_sessions_on_same_client_object", "plaintext_challenges_after_unanswered_hello", "hello_bodies_under_other_type_ids", "key_agreements_checked", "lingering_clients_after_rejected_hello", "slow_handshakes_with_late_duplicate_hello", "client_left_unconnected",
                          "mutations_type1", "mutations_type2", "mutations_type3", "server_connect_events", "concurrent_pending_pairs",
+                         "same_address_hellos_in_the_batch_of_the_disconnect:hello-after-disconnect", "same_address_hellos_in_the_batch_of_the_disconnect:hello-before-disconnect",
+                         "newcomers_keyed_from_the_server_hello:app-data", "newcomers_keyed_from_the_server_hello:challenge-then-app-data",
                          "challenges_right_key_aliased_token", "hellos_answered_with_a_whole_second_between_two_consecutive_reads_of_time",
                          "hellos_answered_with_a_whole_second_between_two_consecutive_reads_of_monotonic", "hellos_answered_with_a_whole_second_between_two_consecutive_reads_of_perf_counter",
                          "clock_phase_sweeps_covering_every_read_gap_of_the_answer:time", "clock_phase_sweeps_covering_every_read_gap_of_the_answer:monotonic",
